@@ -215,9 +215,9 @@ def parse_eoi(ctx):
             continue
         loc = b.loc(p.blocks[-1])
         if r.startswith("Result::Ok"):
-            _rec(d, "ok-only-at-end", "eq(a1.idx, a1.len)" in gs0 or "eq(a1.len, a1.idx)" in gs0, "compile() returns a program although input remains (idx == len not established)", loc)
+            _rec(d, "ok-only-at-end", any(re.match(r"^eq\((a1\.len|len\(.*\)), a1\.idx\)$|^eq\(a1\.idx, (a1\.len|len\(.*\))\)$", g) for g in gs0), "compile() returns a program although input remains (idx == len not established)", loc)
             _rec(d, "optimize-applied", "optimize(try(parse_expr(a1, vec![2])) as Continue.0, a1.re_flags)" in strip_ver(r), "the parsed operation must be optimised with the regex flags and handed to ReProgram::new", loc)
-        elif "!eq(a1.idx, a1.len)" in gs0 or "!eq(a1.len, a1.idx)" in gs0:
+        elif any(re.match(r"^!eq\((a1\.len|len\(.*\)), a1\.idx\)$|^!eq\(a1\.idx, (a1\.len|len\(.*\))\)$", g) for g in gs0):
             _rec(d, "leftover-rejected", r.startswith(SYN), "left-over input must be Error::Syntax; found %s" % r[:60], loc)
     hb = [1 for p, gs, r in paths if "a1.has_back_references" in [strip_ver(g) for g in gs]]
     _rec(d, "backrefs-flag", bool(hb), "compile() must set OPT_HASBACKREFS from has_back_references", b.loc())
